@@ -58,6 +58,17 @@ CHECKS = {
              "of std, tied by correspondence. No axioms.",
         technique="Coq proof (invariants over folds, case analysis) + differential correspondence",
         design="2/C17"),
+    "C19": dict(
+        text="Reply half: Coq theorems over an executable mirror of TrackerResp::from_bencode / peers() built on the proved "
+             "bencode decoder model: parsing never panics for any body; a successful parse yields, in listed order, exactly "
+             "the well-formed entries (characterised by peer_of_spec) of the peers list of a top-level dictionary without a "
+             "failure reason; any string failure reason (valid UTF-8 or not) makes the reply a failure. One genuine defect "
+             "found by the check was repaired by a fix: commit (non-UTF-8 failure reason read as success). Tie: differential "
+             "runs on a reply grammar + mutations, independent oracle on the implementation's answer.",
+        note="Partial: the fault-sequence half (tracker task / command channel / manager blocking) is being built "
+             "(Tracker.v); HTTP transport and reqwest are not modelled. No axioms.",
+        technique="Coq proof (case analysis over the decoder model) + differential correspondence",
+        design="2/C19"),
 }
 
 NOT_APPLICABLE = {}
